@@ -25,6 +25,7 @@ type cliStep struct {
 	Wok     bool   `json:"wok"`
 	Clock   int64  `json:"clock"`
 	Tick    bool   `json:"tick"`
+	SetRTO  int    `json:"setrto"`
 	Deliver struct {
 		Kind string `json:"kind"`
 		ID   string `json:"id"`
@@ -381,6 +382,9 @@ func runSchedule(tw *traceWriter, sch cliSchedule) {
 			break
 		}
 		switch {
+		case st.P == "env" && st.SetRTO != 0:
+			r.emit(map[string]interface{}{"k": "setrto", "v": st.SetRTO})
+			cli.SetRTO(time.Duration(st.SetRTO) * time.Second)
 		case st.P == "env" && st.Tick:
 			r.c.mu.Lock()
 			r.c.clock = st.Clock
@@ -548,7 +552,19 @@ func runSchedule(tw *traceWriter, sch cliSchedule) {
 	case <-cdone:
 	case <-time.After(2 * time.Second):
 	}
-	time.Sleep(100 * time.Microsecond)
+	// do not start the next schedule while goroutines of this one still run: the library's transaction pool is
+	// global, and a straggler that still holds a pooled object would disturb the next client's once-guard
+	for t0 := time.Now(); time.Since(t0) < 2*time.Second; time.Sleep(100 * time.Microsecond) {
+		all := true
+		for p := range r.started {
+			if !isDone(p) {
+				all = false
+			}
+		}
+		if all && !r.readerAlive() {
+			break
+		}
+	}
 	close(stopDrain)
 }
 
